@@ -40,6 +40,16 @@ class Prop(PropBase):
                         k += 1
                 # an erase as the very first operation on an unknown terminal (no size declared)
                 cs.append(Case("T 0 ; er %d ; we %s" % (kind, RED_BLINK), sweep="erase-first-op", cfgs=cfgs[:9]))
+        # the SAME erase twice with no glyph in between while the library does not know where the cursor is (fresh terminal,
+        # after set_size), the real cursor having moved in between (restore, a move): the second erase is not redundant
+        k = 0
+        for kind in range(6):
+            for head in ("", " ; sz 4 3", " ; sz 4 3 ; mv 1 1 ; sz 4 3"):
+                for mid in ("rs", "rs ; rs", "sv ; rs", "hc ; rs", "mv 0 0", "mv 2 1", "er %d" % ((kind + 1) % 6), "in 6 27 91 50 59 50 82"):
+                    for text in ("ws 3 %s %s %s" % (PLAIN, PLAIN, PLAIN), "we " + RED_BLINK, "ws 2 %s %s ; we %s" % (UTF, PLAIN, PLAIN)):
+                        line = "T 0%s ; sv ; %s ; er %d ; %s ; er %d ; we %s" % (head, text, kind, mid, kind, PLAIN)
+                        cs.append(Case(line, sweep="erase-twice-cursor-unknown", cfgs=[cfgs[(k * 5) % len(cfgs)], cfgs[(k * 5 + 11) % len(cfgs)]]))
+                        k += 1
         n = 1500 if tier == "quick" else 30000
         for i in range(n):
             nops = rng.choice([2, 3, 5, 8, 13, 21, 34]) if tier == "quick" else rng.choice([3, 8, 21, 60, 150])
